@@ -475,8 +475,35 @@ impl Iter {
                     }
                 }
                 let enc = c.encode();
-                gencomp::extract_modules(&enc)
+                // a component, like a module, can be encoded more than once: the second encoding must contain the same modules
+                let enc2 = c.encode();
+                let first = gencomp::extract_modules(&enc)?;
+                let second = gencomp::extract_modules(&enc2)?;
+                Ok::<_, String>((first, second))
             });
+            let (via_comp, second_enc): (Result<Result<Vec<Vec<u8>>, String>, crate::runner::PanicInfo>, Option<Vec<Vec<u8>>>) = match via_comp {
+                Ok(Ok((a, b))) => (Ok(Ok(a)), Some(b)),
+                Ok(Err(e)) => (Ok(Err(e)), None),
+                Err(p) => (Err(p), None),
+            };
+            if let (Ok(Ok(first)), Some(second)) = (&via_comp, &second_enc) {
+                if first != second {
+                    let modes: Vec<String> = {
+                        let mut m: Vec<String> = plans.iter().flatten().map(|i| format!("{:?}", i.mode)).collect();
+                        m.sort();
+                        m.dedup();
+                        m
+                    };
+                    let k = first.iter().zip(second.iter()).position(|(a, b)| a != b).unwrap_or(0);
+                    out.violate(
+                        format!("inject:second-component-encoding-differs:{}", modes.join("+")),
+                        detail(json!({"module": k, "plans": format!("{:?}", plans),
+                                      "first": first.get(k).map(|b| crate::props::c01::text_of(b)), "second": second.get(k).map(|b| crate::props::c01::text_of(b))})),
+                    );
+                } else {
+                    out.ob("second_component_encoding_equal");
+                }
+            }
             let mut via_mod: Vec<Result<Vec<u8>, String>> = vec![];
             for (k, plan) in plans.iter().enumerate() {
                 match lower::apply_module(&mods[k], plan) {
